@@ -679,6 +679,16 @@ func (e *runtimeEnv) buildFuncNode(l *leafImpl, cfg *LeafCfg, wait time.Duration
 	if cfg.Fb == "custom" {
 		add(5, flyt.WithExecFallbackFunc(fb), func(b *flyt.NodeBuilder) { b.WithExecFallbackFunc(fb) })
 	}
+	// batch settings on a node that is NOT a batch node (NewNode, not NewBatchNode) configure nothing the run of a
+	// single node looks at: a third of the function-style leaves carry them (which, and in which form, is a function
+	// of the node id so that the scenario stays deterministic)
+	if id := l.rt0.id; id%3 == 1 {
+		conc, cont := 1+id%4, id%2 == 0
+		add(6+id%2, flyt.WithBatchConcurrency(conc), func(b *flyt.NodeBuilder) { b.WithBatchConcurrency(conc) })
+		if id%5 != 0 {
+			add(7+id%2, flyt.WithBatchErrorHandling(cont), func(b *flyt.NodeBuilder) { b.WithBatchErrorHandling(cont) })
+		}
+	}
 	b := flyt.NewNode(opts...)
 	for _, st := range steps {
 		st(b)
@@ -726,10 +736,21 @@ func (rt *nodeRT) itemIndex(v int, arg any) int {
 	tok := itemKey(arg)
 	rt.mu.Lock()
 	defer rt.mu.Unlock()
+	first := -1
 	for i, t := range rt.itemTok[v] {
 		if t == tok {
-			return i
+			// equal payloads at several positions (generated only with budget 1, pass-through fallback and identical or
+			// order-determined scripts): the first position that has not been executed yet
+			if first < 0 {
+				first = i
+			}
+			if rt.battempts[[2]int{v, i}] == 0 {
+				return i
+			}
 		}
+	}
+	if first >= 0 {
+		return first
 	}
 	if tok == 0 {
 		// nil: the Value() of an error-Result item as an Any-style exec function sees it (generators put at most
